@@ -25,6 +25,8 @@ struct Cyclic {
     total: u64,
     /// 0: whatever is asked for; n: at most n bytes per read
     cap: usize,
+    /// what the connection wrote (kept only when asked for: the 4 GiB sessions write nothing worth keeping)
+    out: Option<std::sync::Arc<std::sync::Mutex<Vec<u8>>>>,
 }
 
 impl Cyclic {
@@ -46,8 +48,11 @@ impl io::Read for Cyclic {
         Ok(s.len())
     }
 }
+impl Cyclic {
+    fn keep(&self, buf: &[u8]) { if let Some(o) = &self.out { o.lock().unwrap().extend_from_slice(buf); } }
+}
 impl io::Write for Cyclic {
-    fn write(&mut self, buf: &[u8]) -> io::Result<usize> { Ok(buf.len()) }
+    fn write(&mut self, buf: &[u8]) -> io::Result<usize> { self.keep(buf); Ok(buf.len()) }
     fn flush(&mut self) -> io::Result<()> { Ok(()) }
 }
 impl AsyncRead for Cyclic {
@@ -59,7 +64,7 @@ impl AsyncRead for Cyclic {
     }
 }
 impl AsyncWrite for Cyclic {
-    fn poll_write(self: Pin<&mut Self>, _cx: &mut Context<'_>, buf: &[u8]) -> Poll<io::Result<usize>> { Poll::Ready(Ok(buf.len())) }
+    fn poll_write(self: Pin<&mut Self>, _cx: &mut Context<'_>, buf: &[u8]) -> Poll<io::Result<usize>> { self.keep(buf); Poll::Ready(Ok(buf.len())) }
     fn poll_flush(self: Pin<&mut Self>, _cx: &mut Context<'_>) -> Poll<io::Result<()>> { Poll::Ready(Ok(())) }
     fn poll_shutdown(self: Pin<&mut Self>, _cx: &mut Context<'_>) -> Poll<io::Result<()>> { Poll::Ready(Ok(())) }
 }
@@ -101,7 +106,7 @@ pub fn run(case: &Case) -> Result<u64, String> {
     let mut pat2 = vec![];
     while pat2.len() < 65536 + plen { pat2.extend_from_slice(&pattern); }
     pat2.extend_from_slice(&pattern);
-    let t = Cyclic { pat2, plen, pos: 0, total, cap: case.cap };
+    let t = Cyclic { pat2, plen, pos: 0, total, cap: case.cap, out: None };
     let want = cycles * frames.len() as u64;
     let check = |k: u64, r: Result<Packet, insim::Error>| -> Result<bool, String> {
         if k == want {
@@ -151,6 +156,10 @@ pub fn cases(thorough: bool) -> Vec<Case> {
             out.push(Case { tokio, compressed, cap: 0, min_bytes });
             // 2^16 frames-worth is also passed with small reads: the count of READS grows past 2^16 / 2^24 too
             out.push(Case { tokio, compressed, cap: 7, min_bytes: if thorough { (1 << 28) + 4096 } else { (1 << 22) + 4096 } });
+            // one and two bytes per read all the way: every frame (1012 bytes among them) takes as many reads as it has
+            // bytes - the search, merging states on the buffer contents, only ever executes the shortest way to each
+            out.push(Case { tokio, compressed, cap: 1, min_bytes: if thorough { (1 << 24) + 4096 } else { (1 << 20) + 4096 } });
+            out.push(Case { tokio, compressed, cap: 2, min_bytes: if thorough { (1 << 24) + 4096 } else { (1 << 20) + 4096 } });
         }
     }
     out
@@ -282,4 +291,204 @@ pub fn run_tcp(case: &TcpCase) -> Result<(), String> {
         return Err(format!("the peer received {} after the ISI where {keepalives} keep-alive replies ({}) are due", crate::report::hex(&replies[..replies.len().min(40)]), crate::report::hex(&want)));
     }
     Ok(())
+}
+
+
+// ---------------------------------------------------------------------------------------------
+// "Any number" of keep-alives and of writes on one connection: more than 2^16 of each (a count kept in 16 bits wraps
+// in there), one execution per implementation and mode.  Inbound: the cycle [keep-alive, SMALL, keep-alive, MSO,
+// TINY_PING] repeated 35 000 times (70 000 keep-alives, 175 000 frames); the application writes a SMALL after every
+// 5th read (35 000 writes... and 70 000 in the write-only session).  Oracle: results in order; the outbound bytes are
+// exactly the replies and the written frames in call order.
+
+pub struct CountCase { pub tokio: bool, pub compressed: bool }
+impl CountCase {
+    pub fn label(&self) -> String { format!("many-keep-alives-and-writes#{}#{}", if self.tokio { "tokio" } else { "blocking" }, if self.compressed { "compressed" } else { "uncompressed" }) }
+}
+pub fn count_cases() -> Vec<CountCase> {
+    let mut v = vec![];
+    for tokio in [false, true] { for compressed in [true, false] { v.push(CountCase { tokio, compressed }); } }
+    v
+}
+
+pub fn run_count(case: &CountCase) -> Result<u64, String> {
+    let codec = Codec::new(mode_of(case.compressed));
+    let ka = Packet::Tiny(Tiny { reqi: RequestId(0), subt: TinyType::None });
+    let c = cycle(case.compressed);
+    let inbound: Vec<Packet> = vec![ka.clone(), c[1].clone(), ka.clone(), c[2].clone(), c[3].clone()];
+    let frames: Vec<Vec<u8>> = inbound.iter().map(|p| codec.encode(p).map(|b| b.to_vec()).map_err(|e| format!("MACHINERY encode {e:?}"))).collect::<Result<_, _>>()?;
+    let pattern: Vec<u8> = frames.concat();
+    let plen = pattern.len();
+    let cycles = 35_000u64;
+    let total = cycles * plen as u64;
+    let mut pat2 = vec![];
+    while pat2.len() < 65536 + plen { pat2.extend_from_slice(&pattern); }
+    pat2.extend_from_slice(&pattern);
+    let out = std::sync::Arc::new(std::sync::Mutex::new(Vec::<u8>::new()));
+    let t = Cyclic { pat2, plen, pos: 0, total, cap: 0, out: Some(out.clone()) };
+    let user = Packet::Small(Small { reqi: RequestId(9), subt: SmallType::Vta(VtnAction::End) });
+    let user_frame = codec.encode(&user).map_err(|e| format!("MACHINERY encode {e:?}"))?.to_vec();
+    let pong: Vec<u8> = vec![if case.compressed { 1 } else { 4 }, 3, 0, 0];
+    let want_results = cycles * frames.len() as u64;
+    let mut expect_out: Vec<u8> = Vec::with_capacity((cycles as usize) * 16);
+    let check = |k: u64, r: Result<Packet, insim::Error>| -> Result<bool, String> {
+        if k == want_results {
+            return match r { Err(insim::Error::Disconnected) => Ok(true), other => Err(format!("after the last frame ({k} results) the end of the stream was reported as {}", crate::e2::world::render(&other).chars().take(80).collect::<String>())) };
+        }
+        match r {
+            Ok(p) => {
+                let again = codec.encode(&p).map_err(|e| format!("result {k} does not encode: {e:?}"))?;
+                if again[..] != frames[(k % frames.len() as u64) as usize][..] { return Err(format!("result {k} is not frame {k} of the stream")); }
+                Ok(false)
+            },
+            Err(e) => Err(format!("result {k} is {}", crate::e2::world::render(&Err(e)).chars().take(80).collect::<String>())),
+        }
+    };
+    let is_ka = |k: u64| matches!(k % 5, 0 | 2);
+    let mut writes = 0u64;
+    if case.tokio {
+        let rt = tokio::runtime::Builder::new_current_thread().enable_time().start_paused(true).build().map_err(|e| format!("MACHINERY {e}"))?;
+        let mut framed = insim::net::tokio_impl::Framed::new(Box::new(t), Codec::new(mode_of(case.compressed)));
+        rt.block_on(async {
+            let mut k = 0u64;
+            loop {
+                let r = framed.read().await;
+                if k < want_results && is_ka(k) { expect_out.extend_from_slice(&pong); }
+                if check(k, r)? { break; }
+                if k % 5 == 4 {
+                    framed.write(user.clone()).await.map_err(|e| format!("write #{writes} failed: {e}"))?;
+                    expect_out.extend_from_slice(&user_frame);
+                    writes += 1;
+                }
+                k += 1;
+            }
+            // ... and 70 000 writes in a row
+            for w in 0..70_000u64 {
+                framed.write(user.clone()).await.map_err(|e| format!("write #{} failed: {e}", writes + w))?;
+                expect_out.extend_from_slice(&user_frame);
+            }
+            Ok::<(), String>(())
+        })?;
+    } else {
+        let mut framed = insim::net::blocking_impl::Framed::new(Box::new(t), Codec::new(mode_of(case.compressed)));
+        let mut k = 0u64;
+        loop {
+            let r = framed.read();
+            if k < want_results && is_ka(k) { expect_out.extend_from_slice(&pong); }
+            if check(k, r)? { break; }
+            if k % 5 == 4 {
+                framed.write(user.clone()).map_err(|e| format!("write #{writes} failed: {e}"))?;
+                expect_out.extend_from_slice(&user_frame);
+                writes += 1;
+            }
+            k += 1;
+        }
+        for w in 0..70_000u64 {
+            framed.write(user.clone()).map_err(|e| format!("write #{} failed: {e}", writes + w))?;
+            expect_out.extend_from_slice(&user_frame);
+        }
+    }
+    let got = out.lock().unwrap();
+    if *got != expect_out {
+        let at = got.iter().zip(expect_out.iter()).position(|(a, b)| a != b).unwrap_or(got.len().min(expect_out.len()));
+        return Err(format!("the transport received {} bytes where {} are due (70 000 replies, {} written frames in call order); first difference at byte {at}: {} vs {}", got.len(), expect_out.len(), writes + 70_000,
+            crate::report::hex(&got[at.min(got.len())..(at + 12).min(got.len())]), crate::report::hex(&expect_out[at.min(expect_out.len())..(at + 12).min(expect_out.len())])));
+    }
+    Ok(want_results)
+}
+
+
+// ---------------------------------------------------------------------------------------------
+// The search merges states on the bytes written so far, so of all the ways to reach "300 bytes of this frame are
+// out" it executes the one with the fewest calls.  A writer that counts its calls is only seen by executions that
+// really take many calls: every kind's B1 frame and the largest frame of every counted kind (up to 1016 bytes),
+// written through a transport that takes k bytes per call all the way (k in {1, 2, 3, 7}), optionally answering
+// "not ready" before every call that takes bytes - one execution each.
+
+#[derive(Debug)]
+struct Dribble { k: usize, stutter: bool, ready: bool, out: std::sync::Arc<std::sync::Mutex<Vec<u8>>>, calls: std::sync::Arc<std::sync::atomic::AtomicU64> }
+impl io::Read for Dribble { fn read(&mut self, _b: &mut [u8]) -> io::Result<usize> { Ok(0) } }
+impl io::Write for Dribble {
+    fn write(&mut self, buf: &[u8]) -> io::Result<usize> {
+        let _ = self.calls.fetch_add(1, std::sync::atomic::Ordering::Relaxed);
+        if self.stutter && !self.ready { self.ready = true; return Err(io::Error::new(io::ErrorKind::Interrupted, "verif: not ready")); }
+        self.ready = false;
+        let n = buf.len().min(self.k);
+        self.out.lock().unwrap().extend_from_slice(&buf[..n]);
+        Ok(n)
+    }
+    fn flush(&mut self) -> io::Result<()> { Ok(()) }
+}
+impl AsyncRead for Dribble { fn poll_read(self: Pin<&mut Self>, _cx: &mut Context<'_>, _b: &mut ReadBuf<'_>) -> Poll<io::Result<()>> { Poll::Ready(Ok(())) } }
+impl AsyncWrite for Dribble {
+    fn poll_write(mut self: Pin<&mut Self>, cx: &mut Context<'_>, buf: &[u8]) -> Poll<io::Result<usize>> {
+        let _ = self.calls.fetch_add(1, std::sync::atomic::Ordering::Relaxed);
+        if self.stutter && !self.ready { self.ready = true; cx.waker().wake_by_ref(); return Poll::Pending; }
+        self.ready = false;
+        let n = buf.len().min(self.k);
+        self.out.lock().unwrap().extend_from_slice(&buf[..n]);
+        Poll::Ready(Ok(n))
+    }
+    fn poll_flush(self: Pin<&mut Self>, _cx: &mut Context<'_>) -> Poll<io::Result<()>> { Poll::Ready(Ok(())) }
+    fn poll_shutdown(self: Pin<&mut Self>, _cx: &mut Context<'_>) -> Poll<io::Result<()>> { Poll::Ready(Ok(())) }
+}
+
+pub struct DribbleCase { pub tokio: bool, pub compressed: bool, pub k: usize, pub stutter: bool, pub name: String, pub packet: Packet }
+impl DribbleCase {
+    pub fn label(&self) -> String { format!("dribble-writes#{}#{}#{}#{}-bytes-per-call{}", if self.tokio { "tokio" } else { "blocking" }, if self.compressed { "compressed" } else { "uncompressed" }, self.name, self.k, if self.stutter { "#not-ready-before-every-call" } else { "" }) }
+}
+
+pub fn dribble_cases() -> Vec<DribbleCase> {
+    let mut out = vec![];
+    for compressed in [true, false] {
+        let codec = Codec::new(mode_of(compressed));
+        let mut packets: Vec<(String, Packet)> = vec![];
+        for k in crate::spec::load().iter() {
+            let Some(f) = crate::spec::ref_encode(k, &crate::gen::baseline(k, 1), compressed) else { continue };
+            let mut b = bytes::BytesMut::from(&f[..]);
+            if let Ok(Ok(Some(p))) = crate::report::guard(|| codec.decode(&mut b)) { packets.push((k.name.clone(), p)); }
+        }
+        for cn in crate::typed::counted() {
+            for n in [cn.max, (1016 - cn.header) / cn.elem, (252 - cn.header) / cn.elem, (600 - cn.header.min(600)) / cn.elem] {
+                let Some(p) = (cn.make)(n) else { continue };
+                if !matches!(crate::report::guard(|| codec.encode(&p)), Ok(Ok(_))) { continue; }
+                packets.push((format!("{}x{n}", cn.kind), p));
+            }
+        }
+        for (name, p) in packets {
+            for tokio in [false, true] {
+                for (k, stutter) in [(1usize, false), (2, false), (3, false), (7, false), (1, true)] {
+                    out.push(DribbleCase { tokio, compressed, k, stutter, name: name.clone(), packet: p.clone() });
+                }
+            }
+        }
+    }
+    out
+}
+
+pub fn run_dribble(case: &DribbleCase) -> Result<u64, String> {
+    let codec = Codec::new(mode_of(case.compressed));
+    let tiny = Packet::Tiny(Tiny { reqi: RequestId(1), subt: TinyType::Ping });
+    let mut want = codec.encode(&case.packet).map_err(|e| format!("MACHINERY encode {e:?}"))?.to_vec();
+    want.extend_from_slice(&codec.encode(&tiny).map_err(|e| format!("MACHINERY encode {e:?}"))?);
+    let out = std::sync::Arc::new(std::sync::Mutex::new(Vec::<u8>::new()));
+    let calls = std::sync::Arc::new(std::sync::atomic::AtomicU64::new(0));
+    let t = Dribble { k: case.k, stutter: case.stutter, ready: false, out: out.clone(), calls: calls.clone() };
+    let results: Vec<Result<(), String>> = if case.tokio {
+        let rt = tokio::runtime::Builder::new_current_thread().enable_time().start_paused(true).build().map_err(|e| format!("MACHINERY {e}"))?;
+        let mut framed = insim::net::tokio_impl::Framed::new(Box::new(t), Codec::new(mode_of(case.compressed)));
+        rt.block_on(async { vec![framed.write(case.packet.clone()).await.map_err(|e| e.to_string()), framed.write(tiny.clone()).await.map_err(|e| e.to_string())] })
+    } else {
+        let mut framed = insim::net::blocking_impl::Framed::new(Box::new(t), Codec::new(mode_of(case.compressed)));
+        vec![framed.write(case.packet.clone()).map_err(|e| e.to_string()), framed.write(tiny.clone()).map_err(|e| e.to_string())]
+    };
+    for (i, r) in results.iter().enumerate() {
+        if let Err(e) = r { return Err(format!("write #{i} returned {e} although the transport never failed ({} transport calls so far)", calls.load(std::sync::atomic::Ordering::Relaxed))); }
+    }
+    let got = out.lock().unwrap();
+    if *got != want {
+        let at = got.iter().zip(want.iter()).position(|(a, b)| a != b).unwrap_or(got.len().min(want.len()));
+        return Err(format!("the transport received {} bytes where the two frames are {} bytes; first difference at byte {at}", got.len(), want.len()));
+    }
+    Ok(calls.load(std::sync::atomic::Ordering::Relaxed))
 }
